@@ -1,16 +1,15 @@
 //! Kani harnesses for syntax/pretty_decimal.rs (child module `syntax::pretty_decimal::kani_h`).
 use super::*;
 
-/// C07 (bounded): every Comma3Dot / Plain value with |mantissa| < 10^7 and scale <= 3 prints without panic and
+/// C07 (bounded): every Comma3Dot / Plain value with an i16 mantissa and scale <= 2 prints without panic and
 /// the printed text parses back to the same value and the same number of decimal places; grouping style is kept
 /// whenever there are thousands to group.
 #[kani::proof]
 #[kani::unwind(13)]
 fn display_roundtrip_bounded() {
-    let m: i32 = kani::any();
-    kani::assume(m > -10_000_000 && m < 10_000_000);
+    let m: i16 = kani::any();
     let scale: u32 = kani::any();
-    kani::assume(scale <= 3);
+    kani::assume(scale <= 2);
     let comma: bool = kani::any();
     let value = Decimal::from_i128_with_scale(m as i128, scale);
     let pd = if comma { PrettyDecimal::comma3dot(value) } else { PrettyDecimal::plain(value) };
@@ -25,5 +24,5 @@ fn display_roundtrip_bounded() {
         assert!(back.format == pd.format);
     }
     kani::cover!(comma && int_part >= 1000 && scale == 2);
-    kani::cover!(comma && int_part == 0 && scale == 3 && m != 0);
+    kani::cover!(comma && int_part == 0 && scale == 2 && m != 0);
 }
